@@ -32,6 +32,22 @@ def bits_f64(b):
     return struct.unpack("<d", struct.pack("<Q", b))[0]
 
 
+def fenc(x):
+    """double -> [kind, sign, mantissa, exponent] (see RunSM.float_in)."""
+    x = float(x)
+    if x != x:
+        return [2, 0, 0, 0]
+    s = 1 if math.copysign(1.0, x) < 0 else 0
+    if x == 0:
+        return [0, s, 0, 0]
+    if math.isinf(x):
+        return [1, s, 0, 0]
+    m, e = math.frexp(abs(x))
+    mi = int(m * (1 << 53))
+    assert math.ldexp(mi, e - 53) == abs(x)
+    return [3, s, mi, e - 53]
+
+
 def as_f32_bits(v):
     """bit pattern of the float32 equal to the double v, or None when v is not exactly a float32 value."""
     import numpy as np
@@ -441,12 +457,12 @@ def split_oracle(c, r):
 def main(tier, seed):
     setup_impl_env()
     rep = Report("C18", tier, seed)
-    rep.rule = ("datasets: 2..40 (quick) / ..300 (thorough) samples, 0..8 features, 1..5 classes, ids sequential / random / "
+    rep.rule = ("datasets: 2..40 (quick) / ..150 (thorough) samples, 0..8 features, 1..5 classes, ids sequential / random / "
                 "duplicated / near 2^31, features as float32 bit patterns (gaussian, integers, 2-decimal values, specials: "
                 "+-0, +-inf, subnormals, max, random bit patterns; no NaN), header n_classes right or wrong; streams: valid "
                 "(labels 1..K all present), nonsequential (a label below the maximum missing), and compared-only edge streams "
                 "(single sample, label 0, trailing words, truncated file); every dataset goes through opf2txt/opf2csv/opf2json, "
-                "load_*, parse_loader, Subgraph(from_file). split: n in 1..60 (quick) / ..400, 1..5 features, seeds incl. 0, 1, "
+                "load_*, parse_loader, Subgraph(from_file). split: n in 1..60 (quick) / ..200, 1..5 features, seeds incl. 0, 1, "
                 "2^32-1, percentages {0, 1, .5, .1, .9, 1/3, .7, .29, .99, .25} or uniform; non-trivial = at least 2 samples "
                 "(and for split 0 < halt < n); distinct = distinct input")
     standard_proof_phase(rep, "C18", NEEDED)
@@ -463,10 +479,10 @@ def main(tier, seed):
 
 def _main_body(rep, rng, tier):
     quick = tier == "quick"
-    n_valid = 110 if quick else 2500
-    n_nonseq = 40 if quick else 600
-    n_edge = 40 if quick else 400
-    max_n = 40 if quick else 300
+    n_valid = 110 if quick else 900
+    n_nonseq = 40 if quick else 250
+    n_edge = 40 if quick else 200
+    max_n = 40 if quick else 150
     datasets = []
     for i in range(n_valid):
         datasets.append(gen_dataset(rng, "valid", max_n if i % 7 else 3, 8))
@@ -553,8 +569,8 @@ def _main_body(rep, rng, tier):
     rep.extra["convert_oracle_violations"] = nviol
 
     # ---- split / merge
-    n_split = 300 if quick else 8000
-    scases = [gen_split_case(rng, 60 if quick else 400) for _ in range(n_split)]
+    n_split = 300 if quick else 2500
+    scases = [gen_split_case(rng, 60 if quick else 200) for _ in range(n_split)]
     sterms, sexpect, sres = [], [], []
     sstats = dict(n={}, percentages={}, modes={}, halt_zero=0, halt_all=0, halt_float_vs_exact_floor_differs=0)
     for c in scases:
@@ -563,8 +579,9 @@ def _main_body(rep, rng, tier):
         perm, h = perm_and_halt(c)
         n = len(c["X"])
         Xb = bits_rows(c["X"])
-        sterms.append("run_c18_split %s %d %s %s" % (zlist(perm), h, zlistlist(Xb), zlist(c["Y"])))
-        sexpect.append(None if "exc" in r else expected_split(r))
+        # the model computes halt itself: binary64 product of n and the percentage, truncated (Stream.halt)
+        sterms.append("run_c18_split_p %s %s %s %s" % (zlist(perm), zlist(fenc(c["pct"])), zlistlist(Xb), zlist(c["Y"])))
+        sexpect.append(None if "exc" in r else [len(r["index"][0])] + expected_split(r))
         b = "%d-%d" % (n // 20 * 20, n // 20 * 20 + 19)
         sstats["n"][b] = sstats["n"].get(b, 0) + 1
         pk = repr(c["pct"]) if c["pct"] in PERCENTAGES else "uniform"
@@ -584,7 +601,7 @@ def _main_body(rep, rng, tier):
                 if sfirst is None:
                     sfirst = "n=%d pct=%r seed=%d: model %r / implementation %r" % (len(c["X"]), c["pct"], c["seed"], g[:30], (e_ or ["exc"])[:30])
         rep.obligation("correspondence Stream model vs splitter.split / split_with_index / merge "
-                       "(perm re-seeded in the harness, halt = int(n*percentage); all outputs exact)", sdis == 0,
+                       "(perm re-seeded in the harness, halt computed by the model under binary64; all outputs exact)", sdis == 0,
                        "" if sdis == 0 else "%d disagreements; first: %s" % (sdis, sfirst))
     except RuntimeError as ex:
         rep.obligation("correspondence Stream model vs splitter", False, str(ex))
@@ -609,8 +626,9 @@ def _main_body(rep, rng, tier):
                   [dict(split_n=len(c["X"]), pct=c["pct"], seed=c["seed"], Y=c["Y"][:10]) for c in scases[:2]]
     rep.assumptions = [
         "np.random.permutation(n) after np.random.seed(s) is a permutation of 0..n-1 and a function of s (checked on every case, not proved)",
-        "halt = int(n * percentage) is the binary64 product truncated (the model takes it as an input; cases where it differs from "
-        "floor of the exact product are counted in correspondence.split_merge.distribution)",
+        "floor(n*percentage) is read as in the code: the binary64 product truncated (Stream.halt computes it with PrimFloat and is "
+        "compared with the implementation's set sizes; cases where it differs from floor of the exact product of n and the double "
+        "are counted in correspondence.split_merge.distribution.halt_float_vs_exact_floor_differs); h <= n is a hypothesis of the theorems",
         "struct's '<i' / '<f' little-endian decoding (the model starts from 32-bit words)",
         "np.savetxt('%.18e') / np.loadtxt and json.dump / json.load round-trip every non-NaN float32 value exactly (checked on every case)",
         "NaN features are excluded (payloads do not survive text); labels in the binary file are >= 1 (LibOPF convention)",
